@@ -82,6 +82,17 @@ def run(ck):
     # a valid stream may use a 15-bit distance code with 13 extra bits: the fast loops must have (or fetch) 28 bits there
     from . import c02
     c02.fast_refill(ck, P, "GUARD/fast-bit-budget", fns=(c02.FAST,))
+    # "successful completion exactly for valid streams": the wrapper trailer has to be verified before stream end, the check value
+    # has to cover every output byte, a suspended call must resume where it stopped, and matches must be replicated exactly
+    from . import c08 as _c08, c04 as _c04
+    _fn, _regs = _c08.mode_graph(ck, P)
+    if _fn is not None and _regs:
+        _c08.trailer_cut(ck, P, _fn, _regs)
+    _c08.checksum_update_guard(ck, P)
+    _c04.resume_atomicity(ck, P)
+    _c04.handover_after_suspension(ck, P)
+    _c04.siblings(ck, P)
+    decoders.overlap_safe(ck, P, "WHO/overlap-safe-copy", r"inflate::writer::Writer::copy_match_help$")
     m = tables.decoder_tables(ck, P, "CONST/dec-rfc")
     ck.extra["table_entries_compared"] = m
     ck.extra["exhaustive"] = True
